@@ -5,7 +5,7 @@ import json, os, re
 V = os.path.dirname(os.path.dirname(os.path.abspath(__file__)))
 res = {}
 for line in open(os.path.join(V, "seeded", "RESULTS.txt")):
-    m = re.match(r"^(C\d\d[ab]) (C\d\d) rc=(\d+): (\d+) VIOLATION", line)
+    m = re.match(r"^(C\d\d[a-z]) (C\d\d) rc=(\d+): (\d+) VIOLATION", line)
     if m:
         res[m.group(1)] = (m.group(2), int(m.group(3)), int(m.group(4)))
 rows = ["| change | what it does (one line) | needs | quick check of its property |", "|---|---|---|---|"]
